@@ -141,4 +141,24 @@ pub fn corr(tier: &str, seed: u64, c: &mut Corr) {
             c.emit(&format!("escattr {} {}", qn, hexs(&id)), &hexs(raw));
         }
     }
+    // character data of preserved text: the bytes between the innermost <tspan …> and </tspan>
+    let talpha: Vec<char> = "ab&<>\"';#x\u{e9}_-]".chars().collect();
+    for _ in 0..n / 4 {
+        let len = 1 + rng.below(10) as usize;
+        let content: String = (0..len).map(|_| *rng.pick(&talpha)).collect();
+        let svg = format!(
+            r##"<svg xmlns="http://www.w3.org/2000/svg" width="80" height="50"><text x="5" y="20" font-size="10" font-family="Noto Sans">{}</text></svg>"##,
+            xml_escape_source(&content).replace('>', "&gt;")
+        );
+        let Ok(Ok(t)) = crate::pan::catch(|| usvg::Tree::from_str(&svg, &o)) else { continue };
+        let mut w = usvg::WriteOptions::default();
+        w.preserve_text = true;
+        w.indent = usvg::Indent::None;
+        let Ok(text) = crate::pan::catch(|| t.to_string(&w)) else { continue };
+        let Some(end) = text.find("</tspan>") else { continue };
+        let Some(start) = text[..end].rfind('>') else { continue };
+        // (a literal `>` in the content: search for the opening tag's end instead)
+        let open = text[..end].rfind("stroke=\"none\">").map(|i| i + "stroke=\"none\">".len()).unwrap_or(start + 1);
+        c.emit(&format!("esctext {}", hexs(&content)), &hexs(&text[open..end]));
+    }
 }
